@@ -242,6 +242,10 @@ def _run_case(ctx, P, stream, idx):
             # sentence-like prose lines only: a doctest output line such as `2` is a substring of any type/default
             # that contains that digit (Literal member 'v2_beta') and would make the absorption test a coincidence
             prose = [l for l in hdr + header_lines(parts["footer"]) if len(l) >= 10 and " " in l]
+            # (a header line whose text also occurs in an entry's *own* description proves nothing when it shows up in
+            # that entry - small vocabularies repeat, and a description in braces is a documented source of Literal types)
+            own = "\n".join(str(p[2]) for p in params) + "\n" + str((parts["returns"] or ("", ""))[1])
+            prose = [l for l in prose if l not in own]
             gen = {p[0]: p for p in params}
             entries = list((ir.get("params") or {}).items())
             if ir.get("returns"):
